@@ -130,6 +130,9 @@ TRACKERS = ['ParameterCommand._enablelevel', 'ParameterCommand.enabled', 'List.d
             'EndMath.disableMath']
 
 
+MISSING_ROW = -7      # a cell the regenerated table does not list: no row, hence never reset (gen_R is false for unknown rows)
+
+
 def reg_cell(name):
     member, kind, _ = REGS[name]
     # \name=v on a count parameter goes through ParameterCommand.invoke (row ParameterCommand.value); dimen / glue parameters
@@ -138,6 +141,8 @@ def reg_cell(name):
     r = row_of(REG_ROW[kind])
     if r is None:
         r = row_of('ParameterCommand.value')
+    if r is None:
+        r = MISSING_ROW
     return [r, member]
 
 
@@ -170,8 +175,19 @@ COLTYPE_PKG_Y = '''from plasTeX.Base.LaTeX.Arrays import ColumnType
 def ProcessOptions(options, document):
     ColumnType.new('Y', {'text-align': 'right'})
 '''
+COLTYPE_TMPL = '''from plasTeX.Base.LaTeX.Arrays import ColumnType
+
+def ProcessOptions(options, document):
+    ColumnType.new(%r, %r)
+'''
+# further programs: the same letters with DIFFERENT KEY SETS (a later definition with fewer keys must not keep the earlier keys)
+COLTYPE_MORE = {'vfcoltypeyb': ('Y', {'text-align': 'right', 'font-weight': 'bold'}, 3),
+                'vfcoltypeyc': ('Y', {'text-align': 'center'}, 4),
+                'vfcoltypezb': ('Z', {'text-align': 'center', 'font-weight': 'bold', 'color': 'red'}, 3),
+                'vfcoltypezw': ('Z', {'width': '3em'}, 4)}
 # package -> (letter, value written into the letter's cell)
 COLTYPE_PKGS = {'vfcoltype': ('Z', 1), 'vfcoltyper': ('Z', 2), 'vfcoltypey': ('Y', 2)}
+COLTYPE_PKGS.update({k: (v[0], v[2]) for k, v in COLTYPE_MORE.items()})
 ENVS = {
     'eqnarray': '\\begin{eqnarray}a&=&b\\label{q%(n)da}\\\\c&=&d\\label{q%(n)db}\\\\e&=&f\\end{eqnarray} see \\ref{q%(n)da} and \\ref{q%(n)db} ',
     'eqnarray*': '\\begin{eqnarray*}a&=&b\\\\c&=&d\\end{eqnarray*} ',
@@ -550,7 +566,7 @@ def rand_doc(rng, allow_open=True, role='A'):
     if rng.random() < 0.08:
         pkgs.append(['natbib', 'sectionbib'])
     if rng.random() < 0.2:
-        pkgs.append(rng.choice(['vfcoltype', 'vfcoltype', 'vfcoltyper', 'vfcoltypey']))
+        pkgs.append(rng.choice(['vfcoltype', 'vfcoltyper', 'vfcoltypey', 'vfcoltypeyb', 'vfcoltypeyc', 'vfcoltypezb', 'vfcoltypezw']))
     body = rand_atoms(rng, 2, feats, rng.randint(2, 6))
     if any(a['a'] == 'index' for a in body) and rng.random() < 0.8:
         body.append(dict(a='printindex'))
@@ -603,6 +619,10 @@ def hand_cases():
                 D('report', [dict(a='tabular', spec='lc'), env('figure', 6), env('table', 7), env('equation', 8), env('array', 9)])))
     out.append(('coltype-redefined-by-B', [D('report', [dict(a='tabular', spec='lZ')], pkgs=['vfcoltype'])],
                 D('report', [dict(a='tabular', spec='|l|Z|')], pkgs=['vfcoltyper'])))
+    out.append(('coltype-redefined-with-fewer-keys', [D('report', [dict(a='tabular', spec='lY')], pkgs=['vfcoltypeyb'])],
+                D('report', [dict(a='tabular', spec='lY')], pkgs=['vfcoltypeyc'])))
+    out.append(('coltype-redefined-with-other-keys', [D('report', [dict(a='tabular', spec='Zl')], pkgs=['vfcoltypezb'])],
+                D('report', [dict(a='tabular', spec='|l|Z|')], pkgs=['vfcoltypezw'])))
     out.append(('coltype-other-letter-in-B', [D('report', [dict(a='tabular', spec='lZ')], pkgs=['vfcoltype'])],
                 D('report', [dict(a='tabular', spec='lY')], pkgs=['vfcoltypey'])))
     out.append(('natbib-citealias', [D('report', [dict(a='citealias', k='k'), txt('x')], pkgs=['natbib'])],
@@ -647,6 +667,8 @@ def small_pool():
         D('report', [dict(a='env', e='eqnarray', n=3), dict(a='env', e='figure', n=4)]),
         D('report', [dict(a='tabular', spec='|l|Z|')], pkgs=['vfcoltyper']),
         D('report', [dict(a='tabular', spec='lZ')], pkgs=['vfcoltype']),
+        D('report', [dict(a='tabular', spec='lY')], pkgs=['vfcoltypeyb']),
+        D('report', [dict(a='tabular', spec='lY')], pkgs=['vfcoltypeyc']),
     ]
     return pool
 
@@ -1008,7 +1030,8 @@ def in_child(fn, *args):
 def ensure_pkgdir():
     d = os.path.join(VERIF, 'build', 'C17', PKG_DIRNAME)
     os.makedirs(d, exist_ok=True)
-    for name, text in (('vfcoltype', COLTYPE_PKG), ('vfcoltyper', COLTYPE_PKG_R), ('vfcoltypey', COLTYPE_PKG_Y)):
+    more = [(k, COLTYPE_TMPL % (v[0], v[1])) for k, v in sorted(COLTYPE_MORE.items())]
+    for name, text in [('vfcoltype', COLTYPE_PKG), ('vfcoltyper', COLTYPE_PKG_R), ('vfcoltypey', COLTYPE_PKG_Y)] + more:
         p = os.path.join(d, name + '.py')
         if not os.path.exists(p) or open(p).read() != text:
             tmp = p + '.%d' % os.getpid()
